@@ -827,7 +827,7 @@ theorem features_step (T : STables) (s : Session) (op : SOp) (c : Name)
     have hkb := hk b hb
     cases op with
     | define d bs => exact ⟨aget?_append_known _ _ _ hkb, ahas_append_left _ _ _ hkb⟩
-    | load n es => exact ⟨rfl, hkb⟩
+    | load n es gs => exact ⟨rfl, hkb⟩
     | create i c' sec => exact ⟨rfl, hkb⟩
     | setprop i p pa k v => exact ⟨rfl, hkb⟩
     | addEnum i p m => exact ⟨rfl, hkb⟩
@@ -866,7 +866,7 @@ theorem control_isolated (T : STables) (s : Session) (op : SOp) (j : Name) (h : 
   | registerFailed i m =>
     have hij : i ≠ j := by simpa [SOp.registersOn] using h
     exact inputsOf_enterInput_ne s i j m hij
-  | load n es => rfl
+  | load n es gs => rfl
   | define d bs => rfl
   | create i c sec => rfl
   | setprop i p pa k v => rfl
@@ -911,11 +911,12 @@ def dH : ClassDecl := ⟨"H", ["H", "HasControlledBy", "A"], true,
   [("controlled_by", .param (some "\"s\"") (some (.node "enum" [] [] [("self", 0)])) [] true)]⟩
 
 /-- classes (a feature `F`, `BF` using it, `H` with `controlled_by`), and a configuration in which the sections `m1` and
-`m2` share one `Param` object (`calibrated = Param(constant=2, max=3)` used for both) -/
+`m2` are given one `Param` object (`calibrated = Param(constant=2, max=3)` used for both); `m2` puts it into a `Group` -/
 def exPre : List SOp :=
   [.define dFeature [], .define dA [], .define dB ["A"], .define dF ["Feature"], .define dBF ["F", "B"],
    .define dH ["HasControlledBy", "A"],
-   .load "m1" [("p", .new [("constant", "2"), ("max", "3")])], .load "m2" [("p", .shared "m1" "p")], .load "h1" [], .load "h2" []]
+   .load "m1" [("p", .new [("constant", "2"), ("max", "3")])] [],
+   .load "m2" [("p", .shared "m1" "p")] [("\"grp\"", ["p"])], .load "h1" [] [], .load "h2" [] []]
 
 /-- the modules are created, inputs are registered with one of the two `H` modules -/
 def exPost : List SOp :=
@@ -932,11 +933,11 @@ theorem exPost_admissible : SAdmissibleRun exST exS0 exPost := by
   unfold SAdmissibleRun
   refine ⟨?_, ?_, ?_, ?_, trivial, trivial, trivial⟩ <;> exact Option.isNone_iff_eq_none.1 (by decide +kernel)
 
-/-- the hypotheses of `config_isolated` / `config_isolated_run` hold in the example, and the two sections do share: both
-show the items of the one `Param` object — still after both modules were created from them -/
+/-- the hypotheses of `config_isolated` / `config_isolated_run` hold in the example; the section `m2` shows the items of
+the `Param` object it was given plus its group, `m1` shows the object without — still after both modules were created -/
 example : CfgBounded exS0 ∧ exS0.findSection "m2" ≠ none ∧
-    describeCfg (srun exST exS0 exPost) "m2" = [("p", [("constant", "2"), ("max", "3")])] ∧
-    describeCfg (srun exST exS0 exPost) "m1" = describeCfg (srun exST exS0 exPost) "m2" := by
+    describeCfg (srun exST exS0 exPost) "m2" = [("p", [("constant", "2"), ("max", "3"), ("group", "\"grp\"")])] ∧
+    describeCfg (srun exST exS0 exPost) "m1" = [("p", [("constant", "2"), ("max", "3")])] := by
   refine ⟨cfgBounded_reachable exST exPre, ?_, ?_, ?_⟩
   · intro h
     have : (exS0.findSection "m2").isSome = true := by decide +kernel
